@@ -10,6 +10,37 @@ from ..lib import (construct, std_facts, def_of, facts_at, calls_of_node,
 CP = 'config_parser.ConfigParser'
 
 
+def indirect_callees(prog, m, cc):
+  """Callee(s) of a call: a call through a loop variable that iterates a
+  list of bound methods (parse_value's alternatives) stands for each of them;
+  a call through a name unpacked from a table of bound methods likewise."""
+  q = prog.resolve_call(m, cc)
+  if q:
+    return [q]
+  if isinstance(cc.func, ast.Name):
+    for lp in walk_local(m.node):
+      if isinstance(lp, ast.For) and isinstance(lp.target, ast.Name) and lp.target.id == cc.func.id and isinstance(lp.iter, ast.Name):
+        lst = [a.value for a in walk_local(m.node) if isinstance(a, ast.Assign) and u(a.targets[0]) == lp.iter.id]
+        if len(lst) == 1 and isinstance(lst[0], ast.List):
+          return [x for x in (prog.resolve_expr(m, e) for e in lst[0].elts) if x]
+    # parse_item in the container parser: any self.<method> stored in a dict display of the function
+    out = []
+    idx = None
+    for a in walk_local(m.node):
+      if isinstance(a, ast.Assign) and isinstance(a.targets[0], ast.Tuple) and cc.func.id in [u(e) for e in a.targets[0].elts]:
+        idx = [u(e) for e in a.targets[0].elts].index(cc.func.id)
+    if idx is not None:
+      for d in walk_local(m.node):
+        if isinstance(d, ast.Dict):
+          for v in d.values:
+            if isinstance(v, ast.Tuple) and idx < len(v.elts):
+              x = prog.resolve_expr(m, v.elts[idx])
+              if x:
+                out.append(x)
+      return sorted(set(out))
+  return []
+
+
 def consuming_methods(ctx):
   """Methods of ConfigParser that (transitively) move the token cursor."""
   prog = ctx.prog
@@ -27,7 +58,8 @@ def consuming_methods(ctx):
     for name, m in c.methods.items():
       if m.qual in cons:
         continue
-      if prog.callees(m.qual) & cons:
+      indirect = {q for cc in walk_local(m.node) if isinstance(cc, ast.Call) for q in indirect_callees(prog, m, cc)}
+      if (prog.callees(m.qual) | indirect) & cons:
         cons.add(m.qual)
         changed = True
   return cons, direct
